@@ -716,9 +716,12 @@ func c14CheckValidators(st *core.Stats, c *c14Capture) *core.Violation {
 	// are candidates; otherwise the election falls back to the per-epoch entropy (ADR 0010).
 	vrfPath := false
 	if e.vrf() {
+		// (the seats the provers can fill: at most MaxValidatorsPerEntity per entity)
 		withPi := 0
+		perEntity := map[signature.PublicKey]int{}
 		for i, n := range in.Nodes {
-			if n.HasRoles(node.RoleValidator) && !e.frozen(i) && !e.expired(i) && e.stakeOK(staking.NewAddress(n.EntityID)) && e.proved(n.ID) {
+			if n.HasRoles(node.RoleValidator) && !e.frozen(i) && !e.expired(i) && e.stakeOK(staking.NewAddress(n.EntityID)) && e.proved(n.ID) && perEntity[n.EntityID] < in.Sched.MaxValidatorsPerEntity {
+				perEntity[n.EntityID]++
 				withPi++
 			}
 		}
